@@ -86,9 +86,15 @@ try:
             channel,
             force_as,
             seed,
+            utt2idx=None,
         ):
             super(_FeatureProcessorDataset, self).__init__()
             self.utt_path = tuple(utt2path.items())
+            # the seed of an utterance must not depend on which other utterances
+            # are left to process
+            if utt2idx is None:
+                utt2idx = dict((utt, idx) for (idx, utt) in enumerate(utt2path))
+            self.utt2idx = utt2idx
             self.preprocessors = preprocessors
             self.computer = computer
             self.postprocessors = postprocessors
@@ -101,8 +107,8 @@ try:
 
         @torch.no_grad()
         def __getitem__(self, idx):
-            torch.manual_seed(self.seed + idx)
             utt_id, path = self.utt_path[idx]
+            torch.manual_seed(self.seed + self.utt2idx[utt_id])
             try:
                 signal = read_signal(
                     path, dtype=np.float64, force_as=self.force_as, key=utt_id
@@ -541,6 +547,7 @@ def signals_to_torch_feat_dir(args=None):
             )
             return 1
         utt2path[utt_id] = " ".join(ls[1:])
+    utt2idx = dict((utt_id, idx) for (idx, utt_id) in enumerate(utt2path))
     if options.manifest is not None:
         options.manifest.seek(0)
         for line in options.manifest:
@@ -594,6 +601,7 @@ def signals_to_torch_feat_dir(args=None):
         options.channel,
         options.force_as,
         seed,
+        utt2idx,
     )
     loader = torch.utils.data.DataLoader(dataset, num_workers=options.num_workers)
     if not os.path.isdir(options.dir):
